@@ -107,8 +107,9 @@ def h08a(c, mode="S"):
         status = c.choose("runner_status", ["WINNER", "LOSER", "PLACED", "REMOVED"] if mtype == "EACH_WAY" else ["WINNER", "LOSER", "REMOVED"])
         divisor = c.pick("each_way_divisor", [2, 4, 5]) if mtype == "EACH_WAY" else None
         k = 1
-        if mtype == "WIN" and status == "WINNER":
-            k = c.choose("dead_heat_winners", [1, 2, 3, 4])
+        if mtype in ("WIN", "MATCH_ODDS") and status == "WINNER":
+            # (a dead heat is decided by the number of winners of the closing book, whatever the market type is called)
+            k = c.choose("dead_heat_winners", [1, 2, 3, 4] if mtype == "WIN" else [1, 2])
         line_result = None
         if d["kind"] == "LINE":
             lr = c.choose("line_result", ["none", "below", "equal", "above"])
